@@ -1479,6 +1479,18 @@ func init() {
 		New:  "\tif err := r.readLine(); err != nil && err != io.EOF {\n\t\treturn false, nil\n\t}",
 		Rule: "R16i", Substr: "MoreUnprocessedData error of", Why: "a failing input reader looks like the end of input"})
 
+	wrapRun("C16", func(c *core.Ctx) {
+		// R16j: the old csv / fixed-length readers produce io.EOF only behind evidence that the source is exhausted or that
+		// every declared envelope was tried (seed C16-18: a line starting with Ctrl-Z ended the stream, hiding the failure
+		// of the reader behind it)
+		if c.CountRule("R16j") == 0 {
+			manufacturedEOFDeclExhausted = true
+			manufacturedEOF(c, "R16j", []string{"extensions/omniv21/fileformat/csv", "extensions/omniv21/fileformat/fixedlength"}, 3)
+			manufacturedEOFDeclExhausted = false
+		}
+	})
+	addDoc("C16", "R16j io.EOF in the old csv / fixed-length readers only behind `err == io.EOF` or after every declared envelope was tried.")
+
 	wrapRun("C08", func(c *core.Ctx) {
 		// R08j: names and values are compared exactly in the node package (seed C08-13: EqualFold in the array heuristic)
 		if c.CountRule("R08j") == 0 {
